@@ -84,6 +84,11 @@ CLAIMED = {
              'e[k] is the very term d[k] - y[k]; y[k] == sum_j coeffs()[j]*x[k-j] with the coefficients read before sample k (polynomial identity decided by z3); locked samples leave coeffs() bit-unchanged; unlocked LMS / NLMS samples follow '
              'coeffs*leak + mu*e*x[/(|u|^2+eps)] as a rational identity; real RLS from rest: final coefficients satisfy the exponentially weighted, diagonally regularised normal equations (n = 2); data-dependent paths are enumerated and replayed against an exact rational reference recursion.',
              note='PARTIAL: convergence / misalignment (asymptotic, statistical premise) not decided; RLS normal equations only for 2 updates (3 updates exceed the solver budget); complex filters checked against the plain (unconjugated) product as the library defines it.'),
+ 'C18': dict(design='4/C18', text='PARTIAL. delayseq: output i is the very input term i-d with zero fill for every d, real and complex; peakloc: three symbolic samples, result == vertex of the parabola (rational identity), cyclic / non-cyclic edges; '
+             'finddelay on the impulse family A*delta_j with A symbolic (1e-3 <= |A| <= 1e3), every j and |d| <= n/4: every feasible path returns d; gccphat on the same family with concrete amplitudes, fs 1 and 8; PreambleDetector: concrete rotated PN preamble '
+             '(single-sample normalised peak, checked), symbolic amplitude in [1e-3, 1e3], preamble at every offset modulo the frame length incl. straddling frames: exactly one detection at the index of the last preamble sample, samples returned (same terms), '
+             'score^2 within 1e-6 of 1; a stream without the preamble: none.',
+             note='NOT decided: recovery of the shift for white random signals with additive noise (statistical premise); long preambles (16..512), other thresholds.'),
 }
 ALL = [json.loads(l)['id'] for l in open(os.path.join(V, 'properties.jsonl'))]
 NA_REASON = {}
